@@ -319,6 +319,25 @@ OUTSIDE_MODEL = {
     "C11j": "call backs made only for agents found in a table of `listeners` filled at registration: a conditional call back is refused; whether the skipped calls are exactly the no-op ones depends on how the table is filled (FC11j walks the MRO, same shape)",
     "C11k": "call backs made only if the agent accepts the kind of notification (new optional setting): as C11j",
     "C14j": "step hooks dispatched only at times found in a set collected at session start: a conditional trigger is refused; whether the skipped steps have no hook depends on how the set is collected (FC14j uses a live view of the registry, same shape)",
+    "C01s": "round price computed once after the walk from the last pending pair instead of inside it: the rules trace the price variable the walk sets; a price derived afterwards from the list of pairs is another shape (which of two orders rested is then decided from acceptance times and the clock, not from the book's ranking)",
+    "C03s": "fast path that executes one pair in place when the orders behind it no longer cross, looking at heap slot 1 only: a round that ends without the walk for another reason than `nothing executable` is refused; whether the look-ahead sees the true second-best order is a question about the heap layout",
+    "C04s": "reaper pops the single bucket `time - 1` instead of scanning the keys: there is no comparison of expiry keys with the clock left for the boundary rule to read; right for unit steps, wrong for _set_time jumps",
+    "C05r": "settlement moved into an overridable Agent.settle_execution that decides its side by comparing the record's ids with its own: the paths differ by id comparisons whose feasible combinations (self-trade) the rule cannot enumerate",
+    "C06s": "stepping order memoised on the identity of the market list: an order kept in simulator state is refused (whether the list was extended in place since is a question about its writers)",
+    "C07s": "parsed settings files memoised in a module-level dict keyed by (path, whole-second mtime, size): a keyed memo at module level is refused by C07.R4, whether a stale entry can be served is a question about the key",
+    "C08s": "VWAP served from a checkpoint of closed steps kept in market state: totals kept in state are another representation of the two series; whether a step was closed too early is not decided",
+    "C11r": "fills reported to the agents found in a registry keyed by order id: parties found through other fields of the record are refused (order ids are per market, so the registry can name a stranger; that is a fact about the key space)",
+    "C12r": "scheduled parameter changes consumed inside _generate_next: a second loop that changes generator state is an extension the regeneration rule does not model (a consumed change is not re-queued on rewind)",
+    "C13r": "periodic hooks (`every=N`) expanded to explicit times at registration: a constructor parameter of EventHook without specification, and a bucket decision that is no longer one test of the time list",
+    "C13s": "triggers called only for hook points found non-empty at session start: a trigger under a condition is refused (C13.R3); whether a hook registered later is skipped depends on when the set is refreshed",
+    "C14s": "per-market block of generated fundamentals kept by the simulator and re-read only when the regeneration point moved: a value from kept state / read out of the generator's storage is refused; the stale block of the second market after a shock is a question about invalidation",
+    "C15s": "price range kept per market and recomputed only when the reference price changed: a path that leaves the price alone on the strength of kept state is refused; the rate going stale is a question about invalidation",
+    "C16s": "halt threshold cached per market and dropped only when the halting time ran out: the comparator no longer has the modelled operands",
+    "C17s": "fundamental index served from a block precomputed over the generated horizon: a value from kept state is refused; the block going stale after a shock is a question about invalidation",
+    "C18s": "find_class memoises resolved names in a module-level table that is also filled from registered classes: the lookup is no longer a single expression the rule can read (forking lookup); C07.R4 refuses the module-level memo as well",
+    "C19r": "price-dependent tick size from a table of bands: the grid is no longer the one tick size the rules know; the wrong band below the first bound is an index slip inside the new accessor",
+    "C19s": "last resolved tick cell remembered in a class attribute: levels served from kept state are refused; the lower conversion storing the wrong level is a question about what the cell holds",
+    "C20s": "half spread memoised once the fundamental is flat: a value read from kept agent state is refused; shocks moving a flat fundamental is a question about invalidation",
     "C20q": "chart-following flag moved to a class attribute and its sign cached in the constructor: the chart term no longer reads the instance's flag where the rule looks for it; whether the cached sign can go stale is a question about later writers of the flag",
     "C01q": "non-top removals re-sort the queue with a key function instead of re-heapifying: a queue kept by sort() is refused (whether the key agrees with the comparison of orders, here: where market orders go on the buy side, is a question about the key; FC01q is a correct key of the same shape)",
     "C02q": "the heap holds key tuples built around the orders, with an arrival number taken from len(queue): entries around orders are refused (FC02q is the same shape without the number)",
